@@ -242,6 +242,26 @@ func (p *Program) FuncByName(name string) *ssa.Function {
 			return f
 		}
 	}
+	// the same function turned into a method (or back): same package, same name
+	pkg, bare := name, ""
+	if i := strings.LastIndex(name, "."); i > 0 {
+		pkg, bare = name[:i], name[i+1:]
+	}
+	pkg = strings.TrimPrefix(strings.TrimPrefix(pkg, "(*"), "(")
+	if j := strings.LastIndex(pkg, "."); j > 0 && strings.HasSuffix(name[:strings.LastIndex(name, ".")], ")") {
+		pkg = pkg[:j] // strip the receiver type
+	}
+	var found *ssa.Function
+	n := 0
+	for _, f := range p.RepoFuncs() {
+		if f.Parent() == nil && f.Name() == bare && strings.HasSuffix(fnPkgPath(f), "/"+pkg) {
+			found = f
+			n++
+		}
+	}
+	if n == 1 {
+		return found
+	}
 	return nil
 }
 
@@ -269,4 +289,66 @@ func (p *Program) fnFile(f *ssa.Function) string {
 		return ""
 	}
 	return p.Fset.Position(f.Pos()).Filename
+}
+
+// onlyHelperOf: the function named helper is in the same package as the one
+// named owner, owner calls it (directly or through at most two helpers of the
+// same kind), and nothing else in the repository does or takes its address.
+func (p *Program) onlyHelperOf(helper, owner string) bool {
+	var h, o *ssa.Function
+	for _, f := range p.RepoFuncs() {
+		switch fnName(f) {
+		case helper:
+			h = f
+		case owner:
+			o = f
+		}
+	}
+	if h == nil || o == nil || h == o || fnPkgPath(h) != fnPkgPath(o) {
+		return false
+	}
+	for depth := 0; depth < 3 && h != nil; depth++ {
+		c := p.soleCaller(h)
+		if c == nil {
+			return false
+		}
+		if c == o {
+			return true
+		}
+		if fnPkgPath(c) != fnPkgPath(o) {
+			return false
+		}
+		h = c
+	}
+	return false
+}
+
+// soleCaller: the one top-level function (closures counted with their parent)
+// that calls h, provided nothing else calls it or takes its address.
+func (p *Program) soleCaller(h *ssa.Function) *ssa.Function {
+	var caller *ssa.Function
+	for _, f := range p.RepoFuncs() {
+		if len(f.Blocks) == 0 {
+			continue
+		}
+		root := f
+		for root.Parent() != nil {
+			root = root.Parent()
+		}
+		for _, b := range f.Blocks {
+			for _, i := range b.Instrs {
+				for _, op := range i.Operands(nil) {
+					if op == nil || *op != ssa.Value(h) {
+						continue
+					}
+					cl, isCall := i.(ssa.CallInstruction)
+					if !isCall || cl.Common().Value != ssa.Value(h) || (caller != nil && caller != root) || root == h {
+						return nil
+					}
+					caller = root
+				}
+			}
+		}
+	}
+	return caller
 }
